@@ -150,6 +150,27 @@ impl Engine for C05 {
                 out.push(Program { keys: bkeys, blobs: blobs.to_vec(), steps });
             }
         }
+        // a record full of multi-byte characters lying across a block boundary (8 KiB, 64 KiB,
+        // 2 MiB): readers that decode block by block must not split a character
+        for target in [8192usize, 65536, 2 << 20, 4 << 20] {
+            for d in 0..3usize {
+                let bkeys = vec!["blk-ключ".to_string(), "other".to_string()];
+                let probe = crate::reffmt::Rec { key: bkeys[0].clone(), integrity: Some(crate::blob::sri(Algo::Sha256, &blobs[2].bytes())), time: 1, size: 1, metadata: crate::reffmt::Json::Str(String::new()), raw_metadata: None };
+                let base = crate::reffmt::encode_record(&probe, crate::reffmt::EmitStyle { ascii: false, reversed: false }).len();
+                let pad = "p".repeat(target - base - 300 - d);
+                let fl = |i: usize| if (i + d) % 2 == 0 { Fl::Sync } else { Fl::Async };
+                let wide = |n: usize| serde_json::Value::String(["é", "日", "😀"][n % 3].repeat(400));
+                let steps = vec![
+                    Step { op: Op::IdxInsert { key: 0, fields: IdxFields { integrity: Some(a(2)), size: Some(1), time: Some("1".into()), metadata: Some(serde_json::Value::String(pad)), raw_metadata: None } }, fl: fl(0) },
+                    Step { op: Op::IdxInsert { key: 0, fields: IdxFields { integrity: Some(a(1)), size: Some(2), time: Some("2".into()), metadata: Some(wide(d)), raw_metadata: None } }, fl: fl(1) },
+                    Step { op: Op::Meta { key: 0 }, fl: Fl::Async },
+                    Step { op: Op::Meta { key: 0 }, fl: Fl::Sync },
+                    Step { op: Op::Remove { key: 0 }, fl: fl(0) },
+                    Step { op: Op::IdxInsert { key: 0, fields: IdxFields { integrity: Some(a(0)), size: Some(3), time: Some("3".into()), metadata: Some(wide(d + 1)), raw_metadata: None } }, fl: fl(1) },
+                ];
+                out.push(Program { keys: bkeys, blobs: blobs.to_vec(), steps });
+            }
+        }
         // keys whose buckets share an index sub-directory: what happens to one must not touch the others
         {
             let nkeys = super::c09::index_neighbours();
